@@ -456,6 +456,51 @@ func famLoops(quick bool) []*prog.Case {
 			}
 		}
 	}
+	// for-in over an expression that is evaluated once: the index variable (or the variable that
+	// holds the array) changes inside the body, the iteration goes on over the value it started with
+	// (iterating a plain variable that the body re-assigns is left out: the lowering iterates
+	// such a variable in place, and nothing in the language's documents says which is meant)
+	for _, shape := range []string{"dyn-of-fixed", "dyn-of-dyn"} {
+		for _, when := range []string{"first-iteration", "every-iteration"} {
+			shape, when := shape, when
+			out = append(out, mk(fmt.Sprintf("C01/loops/forin-once/%s/%s", shape, when), func(k K) *fl.Program {
+				i32 := fl.I32
+				l := func(v int64) fl.Expr { return fl.L(i32, v) }
+				row := func(a, b, c int64) fl.Expr { return &fl.ArrLit{Elems: []fl.Expr{l(a), l(b), l(c)}} }
+				var pre []fl.Stmt
+				var over fl.Expr
+				var change fl.Stmt
+				switch shape {
+				case "dyn-of-fixed":
+					pre = []fl.Stmt{&fl.Let{Name: "rows", T: fl.TDyn{Elem: fl.TArr{N: 3, Elem: i32}}, Init: &fl.ArrLit{Elems: []fl.Expr{row(1, 2, 3), row(10, 20, 30)}}}, &fl.Let{Name: "i", T: i32, Init: l(0)}}
+					over, change = fl.Ix(fl.V("rows"), fl.V("i")), &fl.Assign{LHS: fl.V("i"), RHS: l(1)}
+				case "dyn-of-dyn":
+					pre = []fl.Stmt{&fl.Let{Name: "rows", T: fl.TDyn{Elem: fl.TDyn{Elem: i32}}, Init: &fl.ArrLit{Elems: []fl.Expr{row(1, 2, 3), row(10, 20, 30)}}}, &fl.Let{Name: "i", T: i32, Init: l(0)}}
+					over, change = fl.Ix(fl.V("rows"), fl.V("i")), &fl.Assign{LHS: fl.V("i"), RHS: l(1)}
+				case "strs":
+					pre = []fl.Stmt{&fl.Let{Name: "rows", T: fl.TDyn{Elem: fl.Str}, Init: &fl.ArrLit{Elems: []fl.Expr{fl.S("abc"), fl.S("xyz")}}}, &fl.Let{Name: "i", T: i32, Init: l(0)}}
+					over, change = fl.Ix(fl.V("rows"), fl.V("i")), &fl.Assign{LHS: fl.V("i"), RHS: l(1)}
+				case "fixed-var-reassigned":
+					pre = []fl.Stmt{&fl.Let{Name: "cur", T: fl.TArr{N: 3, Elem: i32}, Init: row(1, 2, 3)}}
+					over, change = fl.V("cur"), &fl.Assign{LHS: fl.V("cur"), RHS: row(10, 20, 30)}
+				case "dyn-var-reassigned":
+					pre = []fl.Stmt{&fl.Let{Name: "cur", T: fl.TDyn{Elem: i32}, Init: row(1, 2, 3)}}
+					over, change = fl.V("cur"), &fl.Assign{LHS: fl.V("cur"), RHS: row(10, 20, 30)}
+				}
+				body := []fl.Stmt{fl.P(fl.V("v"))}
+				if when == "first-iteration" {
+					body = append(body, &fl.If{Cond: fl.B("==", fl.V("n"), l(0)), Then: []fl.Stmt{change}}, &fl.OpAssign{Op: "+=", LHS: fl.V("n"), RHS: l(1)})
+				} else {
+					body = append(body, change)
+				}
+				all := append(pre, &fl.Let{Name: "n", T: i32, Init: l(0)}, &fl.ForIn{Idx: "_", Val: "v", X: over, Body: body}, fl.P(fl.S("end")))
+				// in a helper: main's frame is not special
+				p := &fl.Program{}
+				p.Funcs = append(p.Funcs, &fl.Func{Name: k.N("it"), Body: all})
+				return mainProg(p, &fl.ExprStmt{X: fl.C(k.N("it"))})
+			}))
+		}
+	}
 	// ranges with a step: the step's form (literal, let, const, call) decides whether the
 	// compiler knows its sign; the iteration must not depend on that
 	for _, sk := range []string{"untyped-lit", "typed-let", "const", "call"} {
